@@ -188,11 +188,13 @@ def roundtrip_lines(rng: random.Random, tier_: str) -> list[dict[str, Any]]:
         jobs.append((base, st, {'segmentation_duration': None}))
         jobs.append((base, st, {'segmentation_duration': 2**40 - 1, 'delivery_not_restricted_flag': False, 'web_delivery_allowed_flag': True,
                                 'no_regional_blackout_flag': False, 'archive_allowed_flag': True, 'device_restrictions': 2}))
-    for (e, p, d, pid, an, ar), stype, extra in jobs:
+    saps = [0, 1, 2, 3]
+    for jn, ((e, p, d, pid, an, ar), stype, extra) in enumerate(jobs):
         kwd = {'segmentation_event_id': an, 'segmentation_duration': 0, 'segmentation_type': stype}
         kwd.update(extra)
         seg = descriptors.SegmentationDescriptor(**kwd)
-        sig = BinarySignal(sap_type=SapType.CLOSED_GOP_NO_LEADING_PICTURES,
+        # the section header's own fields take part in the identity: every SAP type in turn (the generators use type 0)
+        sig = BinarySignal(sap_type=saps[jn % len(saps)] if jn % 3 else SapType.CLOSED_GOP_NO_LEADING_PICTURES,
                            splice_insert=SpliceInsert(out_of_network_indicator=True, splice_time={'pts': p}, avails_expected=an,
                                                       splice_event_id=e, program_splice_flag=True, avail_num=an, unique_program_id=pid,
                                                       break_duration={'duration': d, 'auto_return': ar}),
@@ -204,7 +206,7 @@ def roundtrip_lines(rng: random.Random, tier_: str) -> list[dict[str, Any]]:
             kw = BinarySignal.parse(io.BytesIO(data), size=len(data))
             back = BinarySignal(**kw)
             si = back.splice_insert
-            same = 1 if (kw.get('crc_valid') and si.splice_event_id == e and si.splice_time.pts == p and si.break_duration.duration == d
+            same = 1 if (kw.get('crc_valid') and int(back.sap_type) == int(sig.sap_type) and si.splice_event_id == e and si.splice_time.pts == p and si.break_duration.duration == d
                          and si.break_duration.auto_return == ar and si.unique_program_id == pid and si.avail_num == an
                          and si.avails_expected == an and back.encode() == data) else 0
             if same:
